@@ -154,8 +154,10 @@ def run():
     res_cli = cli_props.parallel(jobs, lambda d, o, hs: clirun.run_cli(d, o, hashseed=hs, timeout=1200))
     cli_ok = 0
     for (d, o, hs), res in zip(jobs, res_cli):
-        if res.timeout:
-            r.witness("CLI run does not finish within 1200 s", {"opts": o})
+        if clirun.watchdog(res, r, "hostile document %s" % (o,)):
+            continue
+        if res.cpu_exceeded:
+            r.witness("CLI run does not finish within 1200 s of CPU time", {"opts": o})
         elif res.rc != 0:
             m = re.findall(r'File "/repo/([^"]+)", line \d+, in (\w+)', res.stderr_tail)
             r.witness("CLI exits with status %s (%s)" % (res.rc, "%s:%s" % m[-1] if m else "?"),
@@ -193,7 +195,7 @@ def fault_injection(r, rnd, n):
     base = cli_props.parallel([(d, ["-greedy"]) for d in docs], lambda d, o: clirun.run_cli(d, o, timeout=900))
     jobs, meta = [], []
     for d, b in zip(docs, base):
-        if b.rc != 0:
+        if clirun.watchdog(b, r, "fault-injection baseline") or b.rc != 0:
             continue
         rows = cli_props.read_csv(b.text_file("blocks.csv"))
         changed = [x["block_id"] for x in rows if x["old_instrs"] != x["new_instrs"]]
@@ -206,6 +208,8 @@ def fault_injection(r, rnd, n):
         meta.append((d, b, target, mode, rows))
     res = cli_props.parallel(jobs, lambda d, o, env: clirun.run_cli(d, o, timeout=900, env_extra=env))
     for (d, b, target, mode, rows), f in zip(meta, res):
+        if clirun.watchdog(f, r, "fault-injection run"):
+            continue
         out["faults_injected"] += 1
         out["mode_counts"][mode] = out["mode_counts"].get(mode, 0) + 1
         if f.rc != 0 or f.text_file("_optimized.json_solc") is None:
